@@ -204,7 +204,7 @@ func setup(sc *scenario) *world {
 		Params: cdptypes.Params{
 			GlobalDebtLimit: c("usdx", 2_000_000_000_000), SurplusAuctionThreshold: cdptypes.DefaultSurplusThreshold,
 			SurplusAuctionLot: cdptypes.DefaultSurplusLot, DebtAuctionThreshold: cdptypes.DefaultDebtThreshold,
-			DebtAuctionLot: cdptypes.DefaultDebtLot, LiquidationBlockInterval: 1,
+			DebtAuctionLot: cdptypes.DefaultDebtLot, LiquidationBlockInterval: 3,
 			CollateralParams: cps,
 			DebtParam:        cdptypes.DebtParam{Denom: "usdx", ReferenceAsset: "usd", ConversionFactor: sdkmath.NewInt(6), DebtFloor: sdkmath.NewInt(10_000_000)},
 		},
@@ -279,7 +279,9 @@ func (w *world) oracleIndex(a []byte) int {
 }
 
 // snapshot reads the pricefeed store raw (prefix iteration, keys parsed by hand)
-func (w *world) snapshot(ctx sdk.Context) (*snap, string) {
+func (w *world) snapshot(ctx sdk.Context) (*snap, string) { return w.snapshotD(ctx, true) }
+
+func (w *world) snapshotD(ctx sdk.Context, withDigest bool) (*snap, string) {
 	s := &snap{raw: map[[2]int]rawEntry{}, cur: map[int]*big.Int{}}
 	bad := ""
 	store := ctx.KVStore(w.tApp.GetKVStoreKey(pftypes.StoreKey))
@@ -327,7 +329,9 @@ func (w *world) snapshot(ctx sdk.Context) (*snap, string) {
 		}
 		s.status = append(s.status, w.ck.GetMarketStatus(ctx, marketIDs[m]))
 	}
-	s.digest = w.digest(ctx)
+	if withDigest {
+		s.digest = w.digest(ctx)
+	}
 	return s, bad
 }
 
@@ -503,10 +507,10 @@ func (w *world) probe(m int) (Class, *big.Int, *big.Int) {
 			cls = ClassErr
 		}
 	}()
-	s1, _ := w.snapshot(c1)
+	s1, _ := w.snapshotD(c1, false)
 	c2, _ := w.ctx.CacheContext()
 	w.pk.SetCurrentPricesForAllMarkets(c2)
-	s2, _ := w.snapshot(c2)
+	s2, _ := w.snapshotD(c2, false)
 	return cls, s1.cur[m], s2.cur[m]
 }
 
@@ -730,6 +734,9 @@ func (mo *mon) monitor(o op, cls Class, before, after *snap, markets []mkt, fact
 			live := livePrices(before, m, t)
 			for oi := 0; oi < nOracles; oi++ {
 				if e, ok := before.raw[[2]int{m, oi}]; ok {
+					if e.ex.Int64() > t && !oracleListed(markets, m, oi) {
+						mo.mark("median:includes-live-post-of-delisted-oracle")
+					}
 					switch e.ex.Int64() - t {
 					case 0:
 						mo.mark("expiry:eq-block-time-at-end")
@@ -843,12 +850,12 @@ func (mo *mon) monitor(o op, cls Class, before, after *snap, markets []mkt, fact
 				mo.mark("post:unauthorised")
 			case p.Sign() < 0:
 				mo.mark("post:negative")
+			case floorDiv(o.Expiry, 1e9) <= 0:
+				mo.mark("post:expiry-unix-nonpositive")
 			case o.Expiry == t:
 				mo.mark("post:expiry-eq-block-time-refused")
-			case o.Expiry < t:
-				mo.mark("post:expired-refused")
 			default:
-				mo.mark("post:expiry-unix-nonpositive")
+				mo.mark("post:expired-refused")
 			}
 		}
 	case "begin":
@@ -944,9 +951,10 @@ func floorDiv(a, b int64) int64 {
 // ------------------------------------------------------------ generation
 
 type gen struct {
-	r     *Rng
-	sc    *scenario
-	block int // index into sc.times of the current block
+	r       *Rng
+	sc      *scenario
+	block   int // index into sc.times of the current block
+	pending []op
 }
 
 func (g *gen) price(w *world, s *snap, m int) *big.Int {
@@ -1018,10 +1026,39 @@ func (g *gen) tx(w *world, s *snap) op {
 	r := g.r
 	now := w.ctx.BlockTime().UnixNano()
 	markets := w.paramMarkets(w.ctx)
+	if len(g.pending) > 0 {
+		o := g.pending[0]
+		g.pending = g.pending[1:]
+		if o.Expiry <= now {
+			o.Expiry = now + 3600e9
+		}
+		return o
+	}
 	switch r.Pick(48, 32, 9) {
 	case 0: // post
 		m := r.Intn(nParamMk)
 		o := r.Intn(6)
+		if r.Chance(1, 12) && len(markets) > 0 {
+			// burst: every authorised oracle of one market posts (a crash, or fresh prices after a gap)
+			mk := markets[r.Intn(len(markets))]
+			crash := r.Chance(1, 2)
+			ex := g.expiry(now)
+			if ex <= now || r.Chance(1, 2) {
+				ex = now + 3600e9
+			}
+			for _, oi := range mk.Oracles {
+				p := jitter(r, g.sc.base[mk.ID])
+				if crash {
+					p.Quo(p, big.NewInt(300))
+				}
+				g.pending = append(g.pending, op{Kind: "post", O: oi, M: mk.ID, Price: p.String(), Expiry: ex})
+			}
+			if len(g.pending) > 0 {
+				first := g.pending[0]
+				g.pending = g.pending[1:]
+				return first
+			}
+		}
 		// mostly an authorised oracle
 		for _, mk := range markets {
 			if mk.ID == m && len(mk.Oracles) > 0 && r.Chance(9, 10) {
@@ -1306,6 +1343,10 @@ func kindErr(err error) string {
 
 // runHist executes generated (ops == nil) or explicit operations
 func runHist(seed uint64, idx, n int, ops []op, cnt *Counters) runOut {
+	return runHistX(seed, idx, n, ops, ops != nil, cnt)
+}
+
+func runHistX(seed uint64, idx, n int, ops []op, explicit bool, cnt *Counters) runOut {
 	r := NewRng(seed, uint64(idx))
 	nblocks := n/5 + 2
 	sc := genScenario(r, nblocks)
@@ -1324,12 +1365,12 @@ func runHist(seed uint64, idx, n int, ops []op, cnt *Counters) runOut {
 	txLeft := 0
 	probesLeft := 0
 	total := n
-	if ops != nil {
+	if explicit {
 		total = len(ops)
 	}
 	for i := 0; i < total; i++ {
 		var o op
-		if ops != nil {
+		if explicit {
 			o = ops[i]
 		} else {
 			switch {
@@ -1455,6 +1496,20 @@ func runHist(seed uint64, idx, n int, ops []op, cnt *Counters) runOut {
 	return out
 }
 
+func oracleListed(ms []mkt, m, o int) bool {
+	for _, x := range ms {
+		if x.ID == m {
+			for _, y := range x.Oracles {
+				if y == o {
+					return true
+				}
+			}
+			return false
+		}
+	}
+	return false
+}
+
 func marketKnown(ms []mkt, m int) bool {
 	for _, x := range ms {
 		if x.ID == m {
@@ -1477,7 +1532,7 @@ var allSplits = []string{
 	"expiry:eq-block-time-at-end", "expiry:block-time+1ns-at-end", "expiry:block-time-1ns-at-end",
 	"post:repost-overwrites", "post:expiry-block-time+1ns-accepted", "post:expiry-eq-block-time-refused", "post:expired-refused",
 	"post:unauthorised", "post:unknown-market", "post:negative", "post:inactive-market", "post:expiry-unix-nonpositive",
-	"market:inactive-or-removed-serves-price-with-no-live-post",
+	"market:inactive-or-removed-serves-price-with-no-live-post", "median:includes-live-post-of-delisted-oracle",
 	"probe:ok", "probe:err-none-live", "probe:err-unknown-market",
 	"begin:proceed", "begin:skip-spot-missing", "begin:skip-liquidation-price-missing",
 	"cdp:spot-available-liquidation-missing", "hard_withdraw:whole-asset-out-price-not-needed-ok",
@@ -1510,7 +1565,7 @@ func run(o Opts) (*Result, error) {
 		if h.Len == 0 {
 			h.Len = n
 		}
-		ro := runHist(h.Seed, h.Idx, h.Len, h.Ops, cnt)
+		ro := runHistX(h.Seed, h.Idx, h.Len, h.Ops, true, cnt)
 		name, err := WriteShard(o.OutDir, 0, coqHeader, []string{ro.coq}, "mismatches")
 		if err != nil {
 			return nil, err
@@ -1532,11 +1587,11 @@ func run(o Opts) (*Result, error) {
 		if ro.fail != nil {
 			sig := ro.fail.Signature
 			fails := func(cand []op) bool {
-				f := runHist(o.Seed, i, n, cand, nil).fail
+				f := runHistX(o.Seed, i, n, cand, true, nil).fail
 				return f != nil && f.Signature == sig
 			}
 			small := Shrink(ro.ops[:ro.fail.Step+1], fails)
-			if f2 := runHist(o.Seed, i, n, small, nil).fail; f2 != nil {
+			if f2 := runHistX(o.Seed, i, n, small, true, nil).fail; f2 != nil {
 				f2.History = i
 				f2.Replay = MustJSON(hist{o.Seed, i, n, small})
 				ro.fail = f2
@@ -1597,7 +1652,8 @@ func run(o Opts) (*Result, error) {
 		}
 	}
 	res.Extra = map[string]any{
-		"observation": "markets that are inactive or removed from the params keep their last current price (the end blocker skips them); counted in split:market:inactive-or-removed-serves-price-with-no-live-post; see Coq C18_inactive_market_price_frozen / C18_no_stale_price_any_market_refuted",
+		"observation2": "a post of an oracle that was later removed from the market's oracle list keeps counting until it expires (split:median:includes-live-post-of-delisted-oracle)",
+		"observation":  "markets that are inactive or removed from the params keep their last current price (the end blocker skips them); counted in split:market:inactive-or-removed-serves-price-with-no-live-post; see Coq C18_inactive_market_price_frozen / C18_no_stale_price_any_market_refuted",
 	}
 	return res, nil
 }
